@@ -112,8 +112,7 @@ PROPS = {
         "case_to_input": _codec_input,
         "props": "theories/Props/C01.v", "gens": [("tables", "Codec/Gen_Tables.v")], "cluster": "codec", "gen": "codec",
         "n": {"quick": 1200, "thorough": 12000}, "oracle_n": {"quick": 600, "thorough": 8000},
-        "out_of_scope_shapes": {"response-ref-headers-dropped": "a response object carrying both $ref and other members is not a Swagger 2.0 object (response is oneOf response|jsonReference): outside the normal form",
-                                "responses-uppercase-extension": "X-Foo is not a vendor extension (the pattern is ^x-): outside the vocabulary"},
+        "out_of_scope_shapes": {"responses-uppercase-extension": "X-Foo is not a vendor extension (the pattern is ^x-): outside the vocabulary"},
         "rule": "correspondence: norm (= json.Marshal after json.Unmarshal) for 24 kinds on every keyword alone and every pair of keywords, "
                 "random normal-form documents (depth <= 5, nasty member names, free-form payloads, zero validations) and single-fault "
                 "mutations of them; member ORDER of the output is compared; oracle: decode/encode equals the input as a JSON value on "
